@@ -283,7 +283,8 @@ def check_C20(run):
                 "findLongestMatch windows, formatRangeUnified and splitLines cases are counted in evaluations only",
         "driver_counts": counts, "driver_summary": summary,
         "model_mismatches": len(model_m), "spec_mismatches": len(spec_m),
-        "exhaustive": "lines over {a,b,c} up to length %d on both sides; raw texts over {a,b,space,newline} all pairs up to length %d"
+        "exhaustive": True,
+        "exhaustive_over": "lines over {a,b,c} up to length %d on both sides; raw texts over {a,b,space,newline} all pairs up to length %d"
                       % ((5, 4) if thorough else (4, 3)),
         "distributions": stats,
         "samples": sample_cases(cases) if harness_ok else [],
